@@ -63,6 +63,12 @@ class AtomStub:
         self.entity_id = "1"
         self.occupancy = 1.0
 
+    @property
+    def coordinates(self):
+        from sa.blockeval import Vec
+
+        return Vec((self.x, self.y, self.z))
+
     def __repr__(self):
         return f"<atom {self.name}>"
 
